@@ -144,21 +144,21 @@ namespace c16
       }
 
       // ---------------------------------------------------------------- oracles on the classic result
-      const LD al = (LD)alpha; const LD SA = dA.sumabs();
+      const LD al = (LD)alpha; const LD SA = dA.sumabs(); const LD amax = dA.maxabs();
       VectorType one_te, one_tr; Poly pone; pone.dim = dim; pone.t.push_back({1.0, {0, 0, 0}}); PolyFunction<dim> fone(pone);
       Assembly::Interpolator::project(one_te, fone, tes); Assembly::Interpolator::project(one_tr, fone, trs);
       const std::vector<LD> o_te = flat_of(one_te), o_tr = flat_of(one_tr);
       if(op.kills_trial_const())
         for(long i = 0; i < nr; ++i) { LD s = 0, sa = 0; for(long j = 0; j < nc; ++j) { s += dA(i, j) * o_tr[(size_t)j]; sa += fabsl(dA(i, j) * o_tr[(size_t)j]); }
-          VF_CHECK(fabsl(s) <= tol_of<DT>(kap, std::max(sa, dA.maxabs())), op_names[op.kind] << ": (A*1)_" << i << " = " << (double)s << " but constants are in the kernel (row abs sum " << (double)sa << ")"); }
+          VF_CHECK(fabsl(s) <= tol_of<DT>(kap, std::max(sa, amax)), op_names[op.kind] << ": (A*1)_" << i << " = " << (double)s << " but constants are in the kernel (row abs sum " << (double)sa << ")"); }
       if(op.kills_test_const())
         for(long j = 0; j < nc; ++j) { LD s = 0, sa = 0; for(long i = 0; i < nr; ++i) { s += dA(i, j) * o_te[(size_t)i]; sa += fabsl(dA(i, j) * o_te[(size_t)i]); }
-          VF_CHECK(fabsl(s) <= tol_of<DT>(kap, std::max(sa, dA.maxabs())), op_names[op.kind] << ": (1^T*A)_" << j << " = " << (double)s << " but constant test functions are annihilated (column abs sum " << (double)sa << ")"); }
+          VF_CHECK(fabsl(s) <= tol_of<DT>(kap, std::max(sa, amax)), op_names[op.kind] << ": (1^T*A)_" << j << " = " << (double)s << " but constant test functions are annihilated (column abs sum " << (double)sa << ")"); }
       if constexpr(same)
       {
         if(op.symmetric())
           for(long i = 0; i < nr; ++i) for(long j = i + 1; j < nc; ++j)
-            VF_CHECK(fabsl(dA(i, j) - dA(j, i)) <= tol_of<DT>(kap, dA.maxabs()), op_names[op.kind] << ": symmetric form but A(" << i << "," << j << ")=" << (double)dA(i, j) << " A(" << j << "," << i << ")=" << (double)dA(j, i));
+            VF_CHECK(fabsl(dA(i, j) - dA(j, i)) <= tol_of<DT>(kap, amax), op_names[op.kind] << ": symmetric form but A(" << i << "," << j << ")=" << (double)dA(i, j) << " A(" << j << "," << i << ")=" << (double)dA(j, i));
       }
       if(op.kind == OpIdentity)
       {
